@@ -293,7 +293,7 @@ def main(tier):
     ensure_rlib()
     ck.built = built
     rnd = core.rng_for("c09", ck.seed, tier)
-    nprog = 40 if tier == "quick" else 600
+    nprog = 120 if tier == "quick" else 1200
     rows = list(gen.covering_rows(FEATS, 2, rnd, candidates=10))
     while len(rows) < nprog * NSTMT:
         rows.append({k: rnd.choice(v) for k, v in FEATS.items()})
